@@ -109,6 +109,8 @@ def g_add_rel(rng, seq):
     ch = rng.choice(_channels(seq))
     kind = rng.random()
     idx = None if rng.random() < 0.6 else rng.randrange(0, 64)
+    if rng.random() < 0.12:
+        idx = -rng.randrange(1, 5)      # Python-style index from the end (list.insert semantics)
     if kind < 0.4:
         return {"msg": {"t": "wait", "ch": ch, "time": rng.choice([1, 3, 6, 12, 24, rng.randrange(1, 60), rng.choice([6, 0, 2000])])},
                 "index": idx}
@@ -187,17 +189,51 @@ def g_transpose(rng, seq):
     return {"by": k}
 
 
+def _helper_list(rng):
+    """A grid / note-value list produced at apply time by the library's own helpers (the documented way to build these
+    arguments) from integer bounds."""
+    r = rng.random()
+    if r < 0.4:
+        return {"helper": ["get_default_step_sizes", rng.choice([0, 1, 1, 2]), rng.choice([0, 0, 1])]}
+    if r < 0.75:
+        return {"helper": ["get_note_durations", rng.choice([1, 2, 4]), rng.choice([2, 4, 8])]}
+    if r < 0.9:
+        return {"helper": ["tuplets", rng.choice([1, 2, 4]), rng.choice([2, 4]), rng.choice([[3, 2], [5, 4]])]}
+    return {"helper": ["dotted", rng.choice([1, 2, 4]), rng.choice([2, 4]), rng.choice([1, 2])]}
+
+
+def resolve_list(x):
+    """None | literal list | {"helper": [...]} -> what is passed to the library."""
+    if not isinstance(x, dict):
+        return list(x) if x is not None else None
+    from scoda.misc import util
+    h = x["helper"]
+    if h[0] == "get_default_step_sizes":
+        return util.get_default_step_sizes(upper_bound_shift=h[1], lower_bound_shift=h[2])
+    base = util.get_note_durations(h[1], h[2])
+    if h[0] == "get_note_durations":
+        return base
+    if h[0] == "tuplets":
+        return base + util.get_tuplet_durations(base, h[3][0], h[3][1])
+    return base + util.get_dotted_note_durations(base, h[3])
+
+
 def g_quantise(rng, seq):
+    if rng.random() < 0.2:
+        return {"steps": _helper_list(rng)}
     return {"steps": rng.choice([None, None, [6], [12], [4, 6], [3], [8, 6], [24], [2, 3]])}
 
 
 def g_qnl(rng, seq):
+    if rng.random() < 0.2:
+        return {"values": _helper_list(rng), "dne": rng.random() < 0.4}
     return {"values": rng.choice([None, None, [6, 12, 24], [12], [4, 8, 16], [24, 48], [6]]),
             "dne": rng.random() < 0.4}
 
 
 def g_qan(rng, seq):
-    return {"steps": rng.choice([None, None, [6], [4, 6]]), "values": rng.choice([None, None, [6, 12, 24]]),
+    return {"steps": _helper_list(rng) if rng.random() < 0.15 else rng.choice([None, None, [6], [4, 6]]),
+            "values": _helper_list(rng) if rng.random() < 0.15 else rng.choice([None, None, [6, 12, 24]]),
             "dne": rng.random() < 0.3}
 
 
@@ -250,7 +286,7 @@ def a_add_abs(s, a):
 
 def a_add_rel(s, a):
     idx = a.get("index")
-    if idx is not None:
+    if idx is not None and idx >= 0:
         n = _count_rel(s)
         idx = idx % (n + 1)
     s.add_relative_message(music.msg_from_dict(a["msg"]), index=idx)
@@ -308,16 +344,15 @@ def a_transpose(s, a):
 
 
 def a_quantise(s, a):
-    s.quantise(list(a["steps"]) if a["steps"] is not None else None)
+    s.quantise(resolve_list(a["steps"]))
 
 
 def a_qnl(s, a):
-    s.quantise_note_lengths(list(a["values"]) if a["values"] is not None else None, do_not_extend=a["dne"])
+    s.quantise_note_lengths(resolve_list(a["values"]), do_not_extend=a["dne"])
 
 
 def a_qan(s, a):
-    s.quantise_and_normalise(list(a["steps"]) if a["steps"] is not None else None,
-                             list(a["values"]) if a["values"] is not None else None, do_not_extend=a["dne"])
+    s.quantise_and_normalise(resolve_list(a["steps"]), resolve_list(a["values"]), do_not_extend=a["dne"])
 
 
 def _seq_canon(x):
